@@ -2,13 +2,13 @@ SPECIFICATION MCSpec
 CONSTANTS
   Cases <- MCCases
   KFSites = {"rewind_trunc", "andis_trunc", "trymap_shelter", "trymap_rehome", "trymap_override", "filter_found"}
-  Fam = "peg"
-  MaxSize = 2
+  Fam = "err"
+  MaxSize = 3
   Alphabet = {"a", "b"}
-  MaxLen = 2
+  MaxLen = 3
   Kinds = {"str"}
   Etys = {"rich"}
-  Modes = {"E", "C"}
+  Modes = {"E"}
   Chunk = 0
   NChunks = 1
 INVARIANTS Replay RetRefines InspConsistent CursorInBounds ResultContract FurthestFailure NoPanic StepBound
